@@ -1,10 +1,12 @@
 //! Harness for the server-rendering properties. `h_ssr <sub-command>` reads cases on stdin
 //! (one sexp per line) and prints one observation per line. One module per property.
+mod c06;
 mod c12;
 
 fn main() {
     let sub = std::env::args().nth(1).unwrap_or_default();
     match sub.as_str() {
+        "c06" => vsexp::drive(c06::run),
         "c12" => vsexp::drive(c12::run),
         other => {
             eprintln!("h_ssr: unknown sub-command {other:?}");
